@@ -453,6 +453,7 @@ pub fn run(ctx: &Ctx) -> ! {
     let mut cfg = CorpusCfg::new(ctx.tier.pick(2, 3));
     cfg.gen.naming_devs = true;
     cfg.max_arg_maps = ctx.tier.pick(2, 4);
+    cfg.stream_share = 1.0;
     let stats = corpus::drive(
         ctx,
         &uni,
